@@ -5,6 +5,7 @@ package bridge
 
 import (
 	"crypto/ed25519"
+	"io"
 	"crypto/sha256"
 	"encoding/binary"
 	"errors"
@@ -47,6 +48,20 @@ func (d *DetRand) Read(p []byte) (int, error) {
 		n += c
 	}
 	return n, nil
+}
+
+// Chunked delivers the bytes of r at most n per Read (a healthy source that
+// simply returns short reads).
+type Chunked struct {
+	R io.Reader
+	N int
+}
+
+func (c Chunked) Read(p []byte) (int, error) {
+	if c.N > 0 && len(p) > c.N {
+		p = p[:c.N]
+	}
+	return c.R.Read(p)
 }
 
 func RootKey(seed uint64) (ed25519.PublicKey, ed25519.PrivateKey) {
@@ -343,13 +358,13 @@ func (a authorityAdapter) AddRule(r biscuit.Rule) error   { return a.AddAuthorit
 func (a authorityAdapter) AddCheck(c biscuit.Check) error { return a.AddAuthorityCheck(c) }
 
 // BuildAuthority builds a one-block token.
-func BuildAuthority(priv ed25519.PrivateKey, rng *DetRand, b m.Block, keyID *uint32) (*biscuit.Biscuit, error) {
+func BuildAuthority(priv ed25519.PrivateKey, rng io.Reader, b m.Block, keyID *uint32) (*biscuit.Biscuit, error) {
 	return BuildAuthorityBase(priv, rng, b, keyID, nil)
 }
 
 // BuildAuthorityBase builds a one-block token over a custom base symbol table
 // (biscuit.WithSymbols) when base is non-empty.
-func BuildAuthorityBase(priv ed25519.PrivateKey, rng *DetRand, b m.Block, keyID *uint32, base []string) (*biscuit.Biscuit, error) {
+func BuildAuthorityBase(priv ed25519.PrivateKey, rng io.Reader, b m.Block, keyID *uint32, base []string) (*biscuit.Biscuit, error) {
 	var builder biscuit.Builder
 	switch {
 	case keyID != nil && len(base) > 0:
@@ -379,7 +394,7 @@ func UnmarshalBase(data []byte, base []string) (*biscuit.Biscuit, error) {
 }
 
 // AppendBlock attenuates tok with block b.
-func AppendBlock(tok *biscuit.Biscuit, rng *DetRand, b m.Block) (*biscuit.Biscuit, error) {
+func AppendBlock(tok *biscuit.Biscuit, rng io.Reader, b m.Block) (*biscuit.Biscuit, error) {
 	bb := tok.CreateBlock()
 	if err := AddBlockTo(bb, b); err != nil {
 		return nil, err
